@@ -1,6 +1,15 @@
 import Tranp.Driver.Common
 import Tranp.Driver.Tree
 import Tranp.Driver.Proc
+import Tranp.Driver.Eval
+import Tranp.Driver.DI
+import Tranp.Driver.Ladder
+import Tranp.Driver.SymJson
+import Tranp.Driver.Lex
+import Tranp.Driver.Block
+import Tranp.Driver.Session
+import Tranp.Driver.Entry
+import Tranp.Driver.Span
 
 open Tranp.Driver
 
@@ -8,4 +17,13 @@ def main (args : List String) : IO UInt32 := do
   match args with
   | ["tree"] => Tree.run; return 0
   | ["proc"] => Proc.run; return 0
+  | ["eval"] => Eval.run; return 0
+  | ["di"] => DI.run; return 0
+  | ["ladder"] => Ladder.run; return 0
+  | ["symjson"] => SymJson.run; return 0
+  | ["lex"] => Lex.run; return 0
+  | ["block"] => Block.run; return 0
+  | ["session"] => Session.run; return 0
+  | ["entry"] => Entry.run; return 0
+  | ["span"] => Span.run; return 0
   | _ => IO.eprintln s!"unknown driver family: {args}"; return 2
